@@ -28,6 +28,7 @@ THEOREMS = [
     "Pyro.C16.C16_not_return_Statement",
     "Pyro.C16.C16_F16a_needs_fix", "Pyro.C16.C16_F16b_needs_fix", "Pyro.C16.C16_F16c_needs_fix",
     "Pyro.C16.C16_F16d_needs_fix", "Pyro.C16.C16_F16e_needs_fix",
+    "Pyro.Registry.invW_step", "Pyro.Registry.back_step", "Pyro.Registry.abs_step", "Pyro.Registry.reach",
 ]
 SUITES = ["history"]
 RULE = ("histories (<= 25 steps) over a pool of 6 objects of 3 exposed classes and the 3 classes themselves; ids: "
